@@ -316,6 +316,13 @@ func (v *AllScopeVariables) Get(s context.Scope, name string) (value.Value, erro
 	case CLIENT_GEO_GMT_OFFSET:
 		return v.Get(s, "client.geo.utc_offset")
 
+	// Digest ratio will return fixed value if not override (readable in every scope)
+	case REQ_DIGEST_RATIO:
+		if v := lookupOverride(v.ctx, name); v != nil {
+			return v, nil
+		}
+		return &value.Float{Value: 0.4}, nil
+
 	// Client could not fully identified so returns false
 	case CLIENT_IDENTIFIED:
 		if v := lookupOverride(v.ctx, name); v != nil {
